@@ -44,8 +44,8 @@ impl AsyncWrite for FaultIo {
 }
 
 #[derive(Default)]
-struct View { status: String, got: Vec<u64>, in_call: bool, lastres: String }
-enum Cmd { Next, Finish, NextCancelled }
+struct View { status: String, got: Vec<u64>, in_call: bool, lastres: String, queued: usize }
+enum Cmd { Next, Finish, NextCancelled, Via(Arc<Mutex<View>>) }
 
 pub fn response_bytes(mid: i64, kind: &str, tok: u64) -> Vec<u8> {
     let t = tok.to_string();
@@ -166,9 +166,16 @@ async fn run_script(steps: Vec<String>) -> (String, Option<String>) {
                                             let mut v = view.lock().unwrap();
                                             v.lastres = if r.rc == 88 || r.rc == 80 { format!("res:{}", r.rc) } else { format!("res:t{}", r.text) };
                                             v.status = state_str(st.state()).into();
+                                            v.queued = v.queued.saturating_sub(1);
                                             break;
                                         }
+                                        // an operation issued through the stream's own handle (SearchStream::ldap_handle())
+                                        Cmd::Via(v2) => {
+                                            let r = st.ldap_handle().delete("cn=x").await.map(|r| format!("ok:{}", r.text));
+                                            v2.lock().unwrap().status = match r { Ok(s) => s, Err(e) => format!("err:{}", err_class(&e)) };
+                                        }
                                     }
+                                    { let mut v = view.lock().unwrap(); v.queued = v.queued.saturating_sub(1); }
                                 }
                             }));
                         } else {
@@ -204,7 +211,21 @@ async fn run_script(steps: Vec<String>) -> (String, Option<String>) {
                 if server_open { let mut all = vec![]; for t in first..first + count { all.extend(response_bytes(mid, "e", 3 * t + 1)); sent_by_id.entry(mid).or_default().push(3 * t + 1); } let _ = server.write_all(&all).await; }
             }
             "A" => { tokio::time::advance(Duration::from_millis(f[1].parse().unwrap())).await; }
-            "N" | "F" | "C" => { let o: usize = f[1].parse().unwrap(); if let Some(Some(tx)) = cmds.get(o) { let _ = tx.send(if f[0] == "N" { Cmd::Next } else if f[0] == "C" { Cmd::NextCancelled } else { Cmd::Finish }); } }
+            "N" | "F" | "C" => { let o: usize = f[1].parse().unwrap(); if let Some(Some(tx)) = cmds.get(o) { if tx.send(if f[0] == "N" { Cmd::Next } else if f[0] == "C" { Cmd::NextCancelled } else { Cmd::Finish }).is_ok() { views[o].lock().unwrap().queued += 1; } } }
+            // U:<stream>:single  an operation issued through the handle of a started stream that is idle (no call in progress, nothing queued);
+            // otherwise the step does nothing. The stream's task awaits it: later commands for that stream queue behind it
+            "U" => { let o: usize = f[1].parse().unwrap();
+                let ready = match (views.get(o), cmds.get(o)) { (Some(v), Some(Some(_))) => { let v = v.lock().unwrap(); (v.status == "active" || v.status == "done" || v.status == "error") && !v.in_call && v.queued == 0 } _ => false };
+                if ready {
+                    let v2 = Arc::new(Mutex::new(View { status: "pending".into(), lastres: "-".into(), ..Default::default() }));
+                    if cmds[o].as_ref().unwrap().send(Cmd::Via(v2.clone())).is_ok() {
+                        views[o].lock().unwrap().queued += 1;
+                        views.push(v2); kinds.push("single".into()); gates.push(None); cmds.push(None);
+                        sent_at_start.push(sent_by_id.get(&(views.len() as i64)).map(|x| x.len()).unwrap_or(0));
+                        op_mid.push(if table_reset { -2 } else { views.len() as i64 });
+                        tasks.push(tokio::spawn(std::future::pending::<()>()));
+                    }
+                } }
             "M" => {
                 // several complete responses in ONE write (f[1] = 0) or cut in two at f[1] percent of the burst
                 let mut all = vec![];
@@ -326,7 +347,10 @@ fn gen_script(rng: &mut Rng, len: usize, flavour: u64) -> String {
             let hold = rng.chance(1, 5);
             if hold { held.push(g.kinds.len()); }
             s.push(format!("{}:{}:{}", if hold { "P" } else { "S" }, kind, tmo.map(|t| if t == u64::MAX { "max".to_string() } else { t.to_string() }).unwrap_or("-".into())));
+            let via = !hold && (kind == "sd" || kind == "sa") && rng.chance(1, 4);
             g.kinds.push(kind); g.tmos.push(tmo); g.finished_streams.push(false);
+            // an operation issued through the new stream's own handle (ldap_handle()), while the stream is started and idle
+            if via { s.push(format!("U:{}:single", g.kinds.len() - 1)); g.kinds.push("single".into()); g.tmos.push(None); g.finished_streams.push(false); }
         } else if roll < 31 && flavour == 0 && !flooded && g.kinds.iter().any(|k| k == "sd" || k == "sa") {
             // at most one flood per script, on a search that exists
             let o = g.kinds.iter().position(|k| k == "sd" || k == "sa").unwrap(); let count = 1100 + rng.below(500);
